@@ -78,7 +78,8 @@ Definition ok1 (s : st) (given : list rlit) (o : obs1) : bool :=
       end &&
       (* stack: all frames; nodes: one per top-level cause *)
       option_eqb sv_eqb (o_stack o) (match e_stack e with [] => None | fs => Some (SVFrames fs) end) &&
-      Nat.eqb (List.length (o_nodes o)) (List.length (unwrap_tree e))
+      (* every node of the cause tree carries its full subtree *)
+      list_eqb sv_eqb (o_nodes o) (map node_log_value (unwrap_tree e))
   | None => false
   end.
 Definition ok (c : case) : bool :=
